@@ -11,6 +11,8 @@ V12 = {
     "resume12": dict(ver="12", helloVerify=True, resume=True, **NOCID),
     "cid12": dict(ver="12", helloVerify=True, cidC=4, cidS=8),
     "frag12": dict(ver="12", helloVerify=True, mtu=200, **NOCID),
+    # MTU 900: the server's Flight 4 travels in exactly two datagrams (Handshake12 Split variant), all other flights in one
+    "split12": dict(ver="12", helloVerify=True, mtu=900, **NOCID),
 }
 V13 = {
     "hrr13": dict(ver="13", helloVerify=True, **NOCID),
@@ -24,4 +26,4 @@ ALL = dict(V12, **V13)
 
 # which Handshake12 model variant a scenario follows (same flights, one datagram per flight)
 MODEL12 = {"full12": "full", "psk12": "full", "ecdhepsk12": "full", "clientauth12": "full", "cid12": "full",
-           "nohv12": "nohv", "resume12": "resume"}
+           "nohv12": "nohv", "resume12": "resume", "split12": "split"}
